@@ -89,6 +89,8 @@ class Run(object):
         return verdict
 
     def undecide(self, rid, where, what):
+        if any(u['rule'] == rid and u['what'] == what for u in self.undecided):
+            return
         self.undecided.append(dict(rule=rid, where=where, what=what))
 
     # ------------------------------------------------------------- finish
